@@ -231,3 +231,115 @@ def inclusion_is_unnesting(chk, rid):
          'some inclusions are turned into a membership constraint instead of a '
          'join with the list: `x in [a, a]` then yields one row where the two '
          'alternatives x == a | x == a yield two', fi=ei.fi)
+
+
+# recursive calls that deliberately start over with the default of a parameter
+FORWARDING_EXEMPT = {
+    ('rule_translate.GetTreeOfCombines', 'tree'):
+        'a combine starts a fresh subtree on purpose; the other calls extend the current one',
+}
+
+
+def recursive_forwarding(chk, rid, modules=None):
+  """A recursive walker hands the restrictions it was given (optional
+  parameters such as a taboo list or a dive-in flag) to ALL of its recursive
+  calls or to none: when one recursive call forwards an optional parameter and
+  a sibling call does not, the restriction silently stops applying below
+  lists / below dicts.  (A contradiction rule: the code itself shows, in the
+  sibling call, that the parameter is meant to travel.)"""
+  repo = chk.repo
+  n = 0
+  for m in (modules or repo.pipeline()):
+    for q, fi in sorted(m.funcs.items()):
+      a = fi.node.args
+      pos_params = [p.arg for p in a.posonlyargs + a.args]
+      nd = len(a.defaults)
+      optional = set(pos_params[len(pos_params) - nd:]) if nd else set()
+      optional |= {p.arg for p, d in zip(a.kwonlyargs, a.kw_defaults) if d is not None}
+      if not optional:
+        continue
+      recs = [c for c in walk_local(fi.node) if isinstance(c, ast.Call) and
+              call_tail(c) == fi.name and fi.fq in repo.resolve(fi, c)]
+      if len(recs) < 2:
+        continue
+      index = {p: i for i, p in enumerate([p for p in pos_params if p not in ('self', 'cls')])}
+      for p in sorted(optional):
+        passed = [any(k.arg == p for k in c.keywords) or len(c.args) > index.get(p, 99)
+                  for c in recs]
+        if not any(passed):
+          continue
+        n += 1
+        if (fi.fq, p) in FORWARDING_EXEMPT:
+          chk.ob(rid, True, None, '%s: `%s` deliberately not forwarded by every recursive call'
+                 % (fi.qualname, p), FORWARDING_EXEMPT[(fi.fq, p)], fi=fi, nontrivial=False)
+          continue
+        bad = [c for c, ok in zip(recs, passed) if not ok]
+        chk.ob(rid, not bad, None,
+               '%s forwards `%s` to every recursive call' % (fi.qualname, p),
+               'the recursive call `%s` does not pass `%s` although a sibling call '
+               'does: below that point the walker runs with the default, i.e. the '
+               'restriction the caller asked for is dropped' % (
+                   norm(bad[0], 50) if bad else '', p), fi=fi, node=bad[0] if bad else None)
+  return n
+
+
+def dependency_walk_total(chk, rid):
+  """Which predicates a predicate calls (direct_args_of) decides what a functor
+  application clones and which rules a recursion covers.  A call can sit
+  anywhere in a rule - inside a list literal, a record, an aggregated value -
+  so the extraction walks the WHOLE tree: no key of the syntax tree is skipped
+  on the way from BuildDirectArgsOfPredicate down."""
+  repo = chk.repo
+  bw = repo.func('functors.Functors.BuildDirectArgsOfWalk')
+  problems = []
+
+  def key_filters(fn_node):
+    out = []
+    for x in ast.walk(fn_node):
+      if isinstance(x, ast.Compare) and len(x.ops) == 1 and \
+          isinstance(x.ops[0], (ast.In, ast.NotIn, ast.Eq, ast.NotEq)):
+        # a test on a dict key while iterating the dict
+        names = {n_.id for n_ in ast.walk(x.left) if isinstance(n_, ast.Name)}
+        for y in ast.walk(fn_node):
+          tg = None
+          if isinstance(y, (ast.For, ast.comprehension)):
+            tg = y.target
+          if tg is not None and names & {n_.id for n_ in ast.walk(tg) if isinstance(n_, ast.Name)} \
+              and not (isinstance(x.comparators[0], ast.Constant) and x.comparators[0].value is None):
+            it_text = norm(y.iter, 80)
+            if '.items()' in it_text or isinstance(y.iter, ast.Name) or '.keys()' in it_text:
+              out.append(x)
+    return out
+  seen = set()
+  todo = [bw]
+  while todo:
+    fi = todo.pop()
+    if fi.fq in seen:
+      continue
+    seen.add(fi.fq)
+    for c in walk_local(fi.node):
+      if isinstance(c, ast.Call):
+        taboo = kwarg(c, 'taboo', 2)
+        if call_tail(c) in ('Walk', 'WalkWithTaboo') and taboo is not None:
+          try:
+            from sa import tables as _t
+            empty = not _t.const_value(taboo)
+          except AnalysisError:
+            empty = False
+          if not empty:
+            problems.append('%s skips the keys %s' % (fi.qualname, norm(taboo, 40)))
+        for t in repo.resolve(fi, c):
+          if t.startswith('functors.') and t not in seen and t.split('.')[-1] in (
+              'Walk', 'WalkWithTaboo', 'BuildDirectArgsOfWalk'):
+            try:
+              todo.append(repo.func(t))
+            except AnalysisError:
+              pass
+    if fi.name != 'WalkWithTaboo':
+      for x in key_filters(fi.node):
+        problems.append('%s skips dict entries by key (`%s`)' % (fi.qualname, norm(x, 40)))
+  chk.ob(rid, not problems, None,
+         'the extraction of the predicates a rule calls walks the whole rule (no key skipped)',
+         '%s: a predicate called only below such a key (e.g. inside a list literal) is '
+         'not a dependency any more - a functor application leaves it un-substituted, '
+         'a recursion does not cover it' % '; '.join(problems[:2]), fi=bw)
